@@ -206,6 +206,17 @@ Qed.
 Lemma chop_partition {A} sp (l : list A) : concat (chop sp l) ≡ₚ l.
 Proof. rewrite concat_chop. reflexivity. Qed.
 
+(* serde Serialize: the declared length is the number of elements emitted, which are those of
+   iter(), in its order; nothing changes *)
+Lemma map_serialize_spec (Q : N * list (N * N * N) -> st -> Prop) (U : panic -> st -> Prop) s :
+  Inv R ES (s_rt s) ->
+  (forall l, iter_of (s_rt s) l -> Q (N.of_nat (length l), map (fun x => elem3 (snd x)) l) s) ->
+  wp map_serialize Q U s.
+Proof.
+  intros HI HQ. unfold map_serialize. wp_steps. apply rt_iter_spec; [exact HI|]. intros l Hit.
+  apply wp_ret. rewrite <- (iter_of_length (s_rt s) l HI Hit). apply HQ. exact Hit.
+Qed.
+
 (* ------------------------------------------------------------------ retain *)
 
 Definition retain_act (keep : list N) (delta : N) (e : elem) : option elem :=
